@@ -11,7 +11,7 @@ T1 + T2 <= 7; the oracle demands the two results to be equal on the implementati
 theorems say they must (rules ignoring t: always; block engines: T1 odd)."""
 import numpy as np
 from harness.driver import call_impl, cz, cnat, cbool, czlist, cgrid, chist, clist, cres, cpair
-from harness.twins import make_rule, coq_rule_spec, Scribble, PredLt, dress, dress_pred, RULE_DRESSINGS, PRED_DRESSINGS
+from harness.twins import make_rule, coq_rule_spec, Scribble, PredLt, dress, dress_pred, RULE_DRESSINGS, PRED_DRESSINGS, invoke, Lin1, Lin2
 from harness.props.c06 import rand_rule, rand_hist, ints, MEMOS, DTYPES, build_ca, build_rule, conv
 
 ID = 'C05'
@@ -139,6 +139,126 @@ def _shapes2(tier):
 BLOCKS1 = [(1, 1), (2, 1), (2, 2), (4, 2), (6, 2), (6, 3), (3, 3), (8, 4), (5, 1)]        # (N, b)
 BLOCKS2 = [((1, 1), (1, 1)), ((2, 2), (2, 2)), ((2, 2), (1, 2)), ((4, 2), (2, 2)), ((2, 4), (2, 2)), ((4, 4), (2, 2)),
            ((3, 3), (3, 1)), ((3, 2), (1, 1)), ((2, 6), (2, 3))]                            # ((R, C), (b1, b2))
+
+
+class BlankCentre:
+    """computes v = f(n) on the neighbourhood as given, THEN blanks the centre cell of that array in place (the way an
+    outer-totalistic rule is often written: read the centre, zero it, sum the rest) and returns v.  Stateless; the
+    model side is f itself.  A library that uses the array it handed out afterwards (as a cache key, as the next
+    row) sees the blanked centre."""
+    def __init__(self, f):
+        self.f = f
+
+    def __call__(self, n, c, t):
+        v = self.f(n, c, t)
+        d = n.data if isinstance(n, np.ma.MaskedArray) else n
+        try:
+            if d.ndim == 1:
+                d[len(d) // 2] = 0
+            else:
+                d[d.shape[0] // 2, d.shape[1] // 2] = 0
+        except (ValueError, TypeError):          # a read-only argument is left alone
+            pass
+        return v
+
+
+def _run_libclass(cpl, c):
+    """a split evolution carried out with one of the library's OWN stateful rule objects (the same object continues),
+    against the evolution at once with a fresh object: the split law itself, on the implementation"""
+    def mk():
+        if c['lib'] == 'reversible':
+            return cpl.ReversibleRule(list(c['init']), c['R'])
+        inner = Lin1(c['ws'], c['m']) if c['dim'] == 1 else Lin2(c['ws'], c['m'])
+        if c.get('order') is not None:
+            order = [tuple(x) for x in c['order']] if c['dim'] == 2 else list(c['order'])
+            return cpl.AsynchronousRule(apply_rule=inner, update_order=order)
+        saved = np.random.shuffle
+        np.random.shuffle = lambda x: None          # num_cells: the constructor shuffles; keep the natural order
+        try:
+            return cpl.AsynchronousRule(apply_rule=inner, num_cells=(tuple(c['num_cells']) if c['dim'] == 2 else c['num_cells']))
+        finally:
+            np.random.shuffle = saved
+
+    def ev(ca, T, rule):
+        if c['dim'] == 1:
+            return cpl.evolve(ca, timesteps=T, apply_rule=rule, r=1, memoize=False)
+        return cpl.evolve2d(ca, timesteps=T, apply_rule=rule, r=1, neighbourhood=c['nb'], memoize=False)
+    ca = np.array(c['hist'], dtype=c['dtype'])
+    rule = mk()
+    rs = call_impl(lambda: ev(ev(ca, c['T1'], rule), c['T2'], rule))
+    ca2 = np.array(c['hist'], dtype=c['dtype'])
+    rw = call_impl(lambda: ev(ca2, c['T1'] + c['T2'] - 1, mk()))
+    return ['ok', {'out': ['ok', np.asarray(rs[1]).tolist()] if rs[0] == 'ok' else list(rs),
+                   'ref': ['ok', np.asarray(rw[1]).tolist()] if rw[0] == 'ok' else list(rw),
+                   'after': ca.tolist()}]
+
+
+def round6_cases(rng, tier):
+    # libclass/...: oracle only (Coq constructor CSkip5)
+    n = 30 if tier == 'quick' else 300
+    for j in range(n):
+        dim = 1 if j % 3 else 2
+        L = rng.randint(2, 5)
+        T1 = rng.choice([t for t in range(2, 7) if (t - 1) % L != 0])
+        T2 = rng.randint(2, 4)
+        if dim == 1:
+            N = rng.randint(max(L, 3), 8)
+            hist = [[rng.randint(0, 2) for _ in range(N)] for _ in range(rng.randint(1, 3))]
+            c = {'kind': 'libclass/async/1d', 'eng': 'libclass', 'lib': 'async', 'dim': 1, 'dtype': rng.choice(['int32', 'int64']),
+                 'hist': hist, 'T1': T1, 'T2': T2, 'ws': [rng.randint(1, 2) for _ in range(3)], 'm': 3,
+                 'order': rng.sample(range(N), L)}
+            if j % 5 == 0:
+                c.update(order=None, num_cells=N, kind='libclass/async/1d/num_cells',
+                         T1=rng.choice([t for t in range(2, 7) if (t - 1) % N != 0]))
+        else:
+            R, C = rng.randint(2, 3), rng.randint(2, 3)
+            cells = [(a, b) for a in range(R) for b in range(C)]
+            L = min(L, len(cells))
+            T1 = rng.choice([t for t in range(2, 7) if (t - 1) % L != 0])
+            hist = [[[rng.randint(0, 2) for _ in range(C)] for _ in range(R)] for _ in range(rng.randint(1, 2))]
+            nb = rng.choice(['Moore', 'von Neumann'])
+            c = {'kind': 'libclass/async/2d', 'eng': 'libclass', 'lib': 'async', 'dim': 2, 'dtype': 'int64', 'nb': nb,
+                 'hist': hist, 'T1': T1, 'T2': T2, 'ws': [rng.randint(1, 2) for _ in range(9 if nb == 'Moore' else 5)], 'm': 3,
+                 'order': [list(x) for x in rng.sample(cells, L)]}
+        yield c
+    for j in range(10 if tier == 'quick' else 80):
+        N = rng.randint(3, 9)
+        yield {'kind': 'libclass/reversible', 'eng': 'libclass', 'lib': 'reversible', 'dim': 1, 'dtype': 'int64',
+               'hist': [[rng.randint(0, 1) for _ in range(N)] for _ in range(rng.randint(1, 3))],
+               'init': [rng.randint(0, 1) for _ in range(N)], 'R': rng.choice([90, 30, 110, 150, 122]),
+               'T1': rng.randint(2, 5), 'T2': rng.randint(2, 4)}
+    # inplace/...: rules that write into the neighbourhood they are given, in split evolutions (through the model)
+    per = 4 if tier == 'quick' else 16
+    for how in ('blank', 0, 77):
+        for dim in (1, 2):
+            for memo in MEMOS:
+                for _ in range(per * 3 if (dim == 2 and memo == 'recursive') else per):
+                    shape, r, nb = (rng.randint(3, 8), 1, '-') if dim == 1 else \
+                        ((rng.randint(3, 6), rng.randint(3, 6)), 1, rng.choice(['Moore', 'von Neumann']))
+                    T1, T2 = rng.choice([p for p in PAIRS if p[0] >= 2 and p[1] >= 2])
+                    c = _plain(rng, 'inplace/%s/%dd/%s' % (how, dim, memo), dim, shape, r, nb, rng.randint(1, 2),
+                               rng.choice(['int32', 'int64', 'uint8', 'float64']), 'lin', memo, T1=T1, T2=T2, inplace=how)
+                    # few states and a rule that reads the centre: equal neighbours with different centres, all-zero
+                    # neighbourhoods and repeated blocks are frequent, so a poisoned cache entry is hit again
+                    ws = [rng.randint(0, 1) for _ in c['rule']['ws']]
+                    ws[len(ws) // 2] = 1
+                    c['rule'] = {'fam': 'lin', 'ws': ws, 'm': 2}
+                    top = 1
+                    if dim == 1:
+                        c['hist'] = [[(1 if rng.random() < 0.4 else 0) for _ in row] for row in c['hist']]
+                    else:
+                        c['hist'] = [[[(1 if rng.random() < 0.4 else 0) for _ in row] for row in g] for g in c['hist']]
+                    yield c
+    # callform/...: evolve / evolve2d with the first npos arguments positional, the rest by keyword
+    for dim, nargs in ((1, 5), (2, 6)):
+        for npos in range(0, nargs + 1):
+            for j in range(2 if tier == 'quick' else 8):
+                fam, memo = PLAIN[(npos + j) % 5]
+                shape, r, nb = (rng.randint(1, 5), 1, '-') if dim == 1 else \
+                    ((rng.randint(1, 3), rng.randint(1, 3)), 1, rng.choice(['Moore', 'von Neumann']))
+                extra = {'callable': True} if j % 2 else {}
+                yield _plain(rng, 'callform/%dd/npos%d' % (dim, npos), dim, shape, r, nb, rng.randint(1, 3),
+                             rng.choice(DTYPES), fam, memo, T=rng.randint(1, 5), npos=npos, **extra)
 
 
 def round5_cases(rng, tier):
@@ -320,6 +440,9 @@ def generate(rng, tier):
     # (3e) round 5: complex / object automata; callables of another shape; a library rule built from a view
     for c in round5_cases(rng, tier):
         yield c
+    # (3f) round 6: the library's own stateful rules in split evolutions, in-place writers, call forms
+    for c in round6_cases(rng, tier):
+        yield c
     # (4) random larger
     n_rand = 150 if tier == 'quick' else 2500
     for _ in range(n_rand):
@@ -344,12 +467,22 @@ def generate(rng, tier):
 def _rule_obj(c):
     if c['eng'] == 'plain':
         f = build_rule(c, dressed=False)
+        if c.get('inplace') == 'blank':
+            f = BlankCentre(f)
+        elif c.get('inplace') is not None:
+            f = Scribble(f, fill=c['inplace'])
         f = Scribble(f) if c.get('scribble') else f
         return dress(f, c.get('dress'))          # the dressing is OUTERMOST
     return Blk1(c['rule']) if c['dim'] == 1 else Blk2(c['rule'])
 
 
 def _call(cpl, c, ca, T, rule):
+    if c['eng'] == 'plain' and c.get('npos') is not None:
+        if c['dim'] == 1:
+            return invoke(cpl.evolve, ['cellular_automaton', 'timesteps', 'apply_rule', 'r', 'memoize'],
+                          [ca, T, rule, c['r'], c['memo']], c['npos'])
+        return invoke(cpl.evolve2d, ['cellular_automaton', 'timesteps', 'apply_rule', 'r', 'neighbourhood', 'memoize'],
+                      [ca, T, rule, c['r'], c['nb'], c['memo']], c['npos'])
     if c['eng'] == 'plain':
         if c['dim'] == 1:
             return cpl.evolve(ca, timesteps=T, apply_rule=rule, r=c['r'], memoize=c['memo'])
@@ -403,6 +536,8 @@ def run_impl(c):
     import cellpylib as cpl
     if c['eng'] == 'reversible':
         return _run_reversible(cpl, c)
+    if c['eng'] == 'libclass':
+        return _run_libclass(cpl, c)
     ca, owner = make_ca(c)
     if 'T' in c:
         ts = dress_pred(PredLt(c['T']), c.get('pdress')) if c.get('callable') else c['T']
@@ -437,7 +572,7 @@ def _cres_arr(o, carr):
 
 
 def to_coq(c, obs):
-    if c['eng'] == 'reversible':
+    if c['eng'] in ('reversible', 'libclass'):
         return 'CSkip5'
     one = c['dim'] == 1
     carr = cgrid if one else chist
@@ -464,7 +599,7 @@ def to_coq(c, obs):
 
 
 def nontrivial(c, obs):
-    if obs[0] != 'ok' or c['eng'] == 'reversible':
+    if obs[0] != 'ok' or c['eng'] in ('reversible', 'libclass'):
         return False
     if 'T' in c:
         return c['T'] >= 2
@@ -475,6 +610,18 @@ def nontrivial(c, obs):
 def oracle(c, obs):
     hist = c['hist']
     H = len(hist)
+    if c['eng'] == 'libclass':
+        o = obs[1]
+        if o['after'] != hist:
+            return "the caller's array was modified"
+        if o['out'][0] != 'ok' or o['ref'][0] != 'ok':
+            return 'a call raised: %s / %s' % (o['out'][:2] if o['out'][0] != 'ok' else 'ok', o['ref'][:2] if o['ref'][0] != 'ok' else 'ok')
+        if o['out'][1][:H] != hist:
+            return 'the first %d rows of the continued result are not the given rows' % H
+        if o['out'][1] != o['ref'][1]:
+            return ('evolve(evolve(h, %d), %d) with the same %s object differs from evolve(h, %d) at once'
+                    % (c['T1'], c['T2'], 'AsynchronousRule' if c['lib'] == 'async' else 'ReversibleRule', c['T1'] + c['T2'] - 1))
+        return None
     if c['eng'] == 'reversible':
         o = obs[1]
         if o['after'] != hist:
